@@ -686,11 +686,53 @@ def inlined(mod, fn, depth=2, keep=()):
     ast.fix_missing_locations(new)
     normalise_loops(new)
     normalise_formats(new)
+    normalise_conditional_stores(new)
     for n_ in ast.walk(new):
         for c in ast.iter_child_nodes(n_):
             c._parent = n_
     new._parent = getattr(fn, "_parent", None)
     return new
+
+
+def normalise_conditional_stores(fn):
+    """in place: 'x = A if C else x' reads as 'if C: x = A', and the pair form 'x, y = (A, B) if C else (x, y)' as
+    'if C: x = A; y = B' - only when neither A nor B reads x or y (then the simultaneous assignment and the sequence agree)"""
+    def rewrite(st):
+        if not (isinstance(st, ast.Assign) and len(st.targets) == 1 and isinstance(st.value, ast.IfExp)):
+            return None
+        t, v = st.targets[0], st.value
+        tl = list(t.elts) if isinstance(t, (ast.Tuple, ast.List)) else [t]
+        if not all(isinstance(x, ast.Name) for x in tl):
+            return None
+        names = [x.id for x in tl]
+
+        def parts(e):
+            if len(tl) == 1:
+                return [e]
+            return list(e.elts) if isinstance(e, (ast.Tuple, ast.List)) and len(e.elts) == len(tl) else None
+        a, b = parts(v.body), parts(v.orelse)
+        if a is None or b is None:
+            return None
+        same = lambda ps: all(isinstance(p_, ast.Name) and p_.id == n_ for p_, n_ in zip(ps, names))
+        if same(b):
+            new_vals, test = a, v.test
+        elif same(a):
+            new_vals, test = b, ast.UnaryOp(op=ast.Not(), operand=v.test)
+        else:
+            return None
+        if any(isinstance(x, ast.Name) and x.id in names for p_ in new_vals for x in ast.walk(p_)):
+            return None
+        body = [ast.copy_location(ast.Assign(targets=[ast.Name(id=n_, ctx=ast.Store())], value=p_), st) for n_, p_ in zip(names, new_vals)]
+        return ast.fix_missing_locations(ast.copy_location(ast.If(test=test, body=body, orelse=[]), st))
+    for n_ in ast.walk(fn):
+        for fld in ("body", "orelse", "finalbody"):
+            blk = getattr(n_, fld, None)
+            if isinstance(blk, list):
+                for k_, st in enumerate(blk):
+                    r_ = rewrite(st)
+                    if r_ is not None:
+                        blk[k_] = r_
+    return fn
 
 
 _FIELD = re.compile(r"\{\{|\}\}|\{([^{}!:]*)(?:!([rsa]))?(?::([^{}]*))?\}")
@@ -1497,3 +1539,48 @@ class AbsInterp(object):
 
     def simple(self, s, st):
         return st
+
+
+def attrs_reset(fn, value_src="None"):
+    """(set of 'self.x' attribute texts that fn resets to `value_src`, list of constructs it could not read).
+    Understood: self.x = None, chained / tuple targets, setattr(self, 'x', None), and a loop of setattr(self, n, None) over a literal
+    tuple / list / set of names (or a module-level constant of that form is NOT resolved here: it goes to the unread list)."""
+    out, unread = set(), []
+    for a in ast.walk(fn):
+        if isinstance(a, ast.Assign) and src(a.value) == value_src:
+            for t in a.targets:
+                for e in (t.elts if isinstance(t, (ast.Tuple, ast.List)) else [t]):
+                    out.add(src(e))
+        if isinstance(a, ast.Call) and dotted(a.func) == "setattr" and len(a.args) == 3 and src(a.args[0]) == "self" and src(a.args[2]) == value_src:
+            n = a.args[1]
+            if isinstance(n, ast.Constant) and isinstance(n.value, str):
+                out.add("self." + n.value)
+            elif isinstance(n, ast.Name):
+                loops = [l for l in ast.walk(fn) if isinstance(l, ast.For) and isinstance(l.target, ast.Name) and l.target.id == n.id
+                         and any(x is a for x in ast.walk(l))]
+                if len(loops) == 1 and isinstance(loops[0].iter, (ast.Tuple, ast.List, ast.Set)) and \
+                        all(isinstance(e, ast.Constant) and isinstance(e.value, str) for e in loops[0].iter.elts):
+                    out |= set("self." + e.value for e in loops[0].iter.elts)
+                else:
+                    unread.append(src(a))
+            else:
+                unread.append(src(a))
+    return out, unread
+
+
+def guard_atoms(guards):
+    """atomic facts {(text without blanks, polarity)} implied by a list of (test, polarity) path conditions: a conjunction taken
+    true and a disjunction taken false are split into their parts, 'not' flips, 'a not in b' reads as ('ainb', False),
+    'a != b' as ('a==b', False), 'a is not b' as ('aisb', False)"""
+    out = set()
+    for t, pol in guards:
+        if isinstance(t, ast.UnaryOp) and isinstance(t.op, ast.Not):
+            out |= guard_atoms([(t.operand, not pol)])
+        elif isinstance(t, ast.BoolOp) and ((isinstance(t.op, ast.And) and pol) or (isinstance(t.op, ast.Or) and not pol)):
+            out |= guard_atoms([(v_, pol) for v_ in t.values])
+        elif isinstance(t, ast.Compare) and len(t.ops) == 1 and isinstance(t.ops[0], (ast.NotIn, ast.NotEq, ast.IsNot)):
+            op = {ast.NotIn: "in", ast.NotEq: "==", ast.IsNot: "is"}[type(t.ops[0])]
+            out.add((src(t.left).replace(" ", "") + op + src(t.comparators[0]).replace(" ", ""), not pol))
+        else:
+            out.add((src(t).replace(" ", ""), pol))
+    return out
